@@ -46,6 +46,25 @@ func (a *Analysis) classifyErr(v ssa.Value) errClass {
 			return c
 		}
 	case *ssa.MakeInterface:
+		// a constant of a string-backed module type whose only error-related method is Error
+		// (`type sentinelError string`): equal to every value of that type with the same text —
+		// the sentinel declared with that text, or no sentinel at all
+		if n, text, ok := a.constErr(x.X); ok {
+			for _, name := range []string{"ErrWordLen", "ErrEntropyLen", "ErrChecksumIncorrect"} {
+				g := a.sentinel(name)
+				if g == nil {
+					continue
+				}
+				if st := a.onlyDeclStore(g); st != nil {
+					if mi, ok := st.Val.(*ssa.MakeInterface); ok {
+						if n2, t2, ok := a.constErr(mi.X); ok && n2 == n && t2 == text {
+							return errClass{Kind: "sentinel", G: g, Desc: fmt.Sprintf("%s(%q), the value of %s", n.Obj().Name(), text, g.Name())}
+						}
+					}
+				}
+			}
+			return errClass{Kind: "fresh", Desc: fmt.Sprintf("%s(%q), the value of no sentinel", n.Obj().Name(), text)}
+		}
 		// &T{…} of a module type whose only error-related method is Error: a fresh error value
 		// (pointer identity), matching nothing but itself
 		if al, ok := x.X.(*ssa.Alloc); ok && al.Heap {
@@ -215,6 +234,66 @@ func varargsOf(c *ssa.Call) []ssa.Value {
 func (a *Analysis) sentinel(name string) *ssa.Global {
 	g, _ := a.P.Root.Members[name].(*ssa.Global)
 	return g
+}
+
+// constErr: v is a constant of a module type with underlying type string whose method set has
+// Error and none of Is, As, Unwrap; the type and the text.
+func (a *Analysis) constErr(v ssa.Value) (*types.Named, string, bool) {
+	for {
+		switch x := v.(type) {
+		case *ssa.ChangeType:
+			v = x.X
+			continue
+		case *ssa.Convert:
+			v = x.X
+			continue
+		}
+		break
+	}
+	c, ok := v.(*ssa.Const)
+	if !ok || c.Value == nil || c.Value.Kind() != constant.String {
+		return nil, "", false
+	}
+	n, ok := c.Type().(*types.Named)
+	if !ok || n.Obj().Pkg() == nil || a.P.Root == nil || n.Obj().Pkg() != a.P.Root.Pkg {
+		return nil, "", false
+	}
+	if b, ok := n.Underlying().(*types.Basic); !ok || b.Kind() != types.String {
+		return nil, "", false
+	}
+	ms := a.P.SSA.MethodSets.MethodSet(n)
+	hasError, other := false, false
+	for i := 0; i < ms.Len(); i++ {
+		switch ms.At(i).Obj().Name() {
+		case "Error":
+			hasError = true
+		case "Is", "As", "Unwrap":
+			other = true
+		}
+	}
+	if !hasError || other {
+		return nil, "", false
+	}
+	return n, constant.StringVal(c.Value), true
+}
+
+// onlyDeclStore: the one store to g, made by its declaration (nil if g is written otherwise).
+func (a *Analysis) onlyDeclStore(g *ssa.Global) *ssa.Store {
+	var st *ssa.Store
+	n := 0
+	for _, w := range a.Ef.Writes[g] {
+		if w.Test {
+			continue
+		}
+		n++
+		if w.Synth && w.Kind == "store" {
+			st, _ = w.Instr.(*ssa.Store)
+		}
+	}
+	if n != 1 {
+		return nil
+	}
+	return st
 }
 
 // classifyAlloc: &T{…} of a module type whose only error-related method is Error is a fresh
@@ -561,6 +640,23 @@ func (a *Analysis) ruleS1() {
 			c := a.classifyErr(st.Val)
 			desc += c.Desc
 			ok = c.Kind == "fresh"
+			if c.Kind == "sentinel" && c.G == g {
+				// a string-backed constant error: its own text, which no other sentinel has (another
+				// sentinel with the same text would have been found first or second, and differ)
+				ok = true
+				for _, other := range []string{"ErrWordLen", "ErrEntropyLen", "ErrChecksumIncorrect"} {
+					og := a.sentinel(other)
+					if og == nil || og == g {
+						continue
+					}
+					if ost := a.onlyDeclStore(og); ost != nil {
+						if oc := a.classifyErr(ost.Val); oc.Kind == "sentinel" && oc.G == g {
+							ok = false
+							desc += "; " + og.Name() + " has the same value"
+						}
+					}
+				}
+			}
 		}
 		if ok {
 			r.OK("S1", "sentinel/"+name, pos, "", "assigned once, by its declaration: %s", desc)
